@@ -418,7 +418,11 @@ pub fn run_epoch2(w1: &Workload, image: Vec<u8>, seed: u64, salt: u64, dir: &str
     let ret = mon.len();
     log.push(format!("[{inv}..{ret}] clean drop"));
     let mut acks = acks.into_inner();
-    acks.push((inv, ret, t));
+    // on a device the live set nearly fills, the final flush of a drop may be unable to place a pending record
+    // (it only logs that): there the drop acknowledges nothing, only the explicit flushes that returned Ok do
+    if cfg.blocks > 16 + 32 {
+        acks.push((inv, ret, t));
+    }
     acks.sort();
     let events = mon.take_events();
     hub().unwatch(&mon);
